@@ -639,6 +639,13 @@ impl<'a> G<'a> {
                 let s = self.pick(&src)?;
                 let sh = self.slots[s].unwrap();
                 let unique = self.allocs[sh.alloc].owners == 1;
+                if self.cfg_a && sh.kind == K::ArcP && self.rng.pct(12) {
+                    // serde in-place deserialisation: the handle ends up as a sole owner
+                    self.allocs[sh.alloc].owners -= 1;
+                    let a = self.new_alloc(0);
+                    self.set(s, K::ArcP, a);
+                    return op(OpCode::DeInPlace, s, 0, self.rng.below(1000));
+                }
                 if !unique {
                     self.allocs[sh.alloc].owners -= 1;
                     let a = self.new_alloc(0);
